@@ -83,35 +83,11 @@ func checkC19(c *Ctx, e *Env) {
 	}
 	c.Count("mutating_calls_checked", nM1)
 	// M2
-	for _, name := range sortedKeys(ctxTable) {
-		fn := byName[name]
-		if fn == nil {
-			c.Undecide("C19.M2", name, "-", "arithmetic entry point "+name+" no longer exists: the rule table must be re-confirmed")
-			continue
-		}
-		got := ctxOps(fn, sp, map[*ssa.Function]bool{})
-		for op, want := range ctxTable[name] {
-			var have []string
-			for k := range got {
-				if strings.HasSuffix(k, "."+op) {
-					have = append(have, strings.TrimSuffix(k, "."+op))
-				}
-			}
-			sort.Strings(have)
-			ok := len(have) == 1 && have[0] == want
-			det := fmt.Sprintf("%s performs %s on %v (required: %s)", name, op, have, want)
-			c.Check(ok, "C19.M2", name+"#"+op, p.Pos(fn.Pos()), det)
-		}
-		// no other context op may be reachable
-		for k := range got {
-			op := k[strings.LastIndex(k, ".")+1:]
-			if _, ok := ctxTable[name][op]; !ok {
-				c.Violate("C19.M2", name+"#extra:"+op, p.Pos(fn.Pos()), name+" additionally performs "+k+" which its contract does not include", nil)
-			}
-		}
-	}
+	ruleM2Contexts(c, p, sp, byName, nil)
 	ruleM2Literals(c, p)
 	ruleM2NoWrites(c, e, p)
+	// M8: no machine-integer arithmetic feeds a decimal
+	ruleNoMachineArith(c, p, fns)
 	// M3
 	ruleGuard(c, p, byName, "C19.M3", "Dec.MulExact", "Condition.Rounded", false, "rounding flag of the multiplication guards every success return", guardSubject{kind: "op"})
 	ruleGuard(c, p, byName, "C19.M3", "Dec.QuoExact", "Condition.Rounded", false, "rounding flag of the division guards every success return", guardSubject{kind: "op"})
@@ -676,8 +652,57 @@ func ruleM2NoWrites(c *Ctx, e *Env, p *Program) {
 			}
 		}
 	}
+	// the address of a shared context must not travel: whoever receives a *apd.Context can set its
+	// rounding mode, precision or traps for every later operation in the process
+	for _, pk := range p.RepoList {
+		sp := p.ssaPkgs[pk.Types]
+		if sp == nil || excludedPkg(pk.PkgPath) != "" {
+			continue
+		}
+		for _, fn := range pkgFuncs(p.SSA, sp) {
+			if strings.HasPrefix(fn.Synthetic, "package init") || fn.Name() == "init" {
+				continue
+			}
+			for _, b := range fn.Blocks {
+				for _, in := range b.Instrs {
+					var ops []*ssa.Value
+					for _, op := range in.Operands(ops) {
+						g, isG := (*op).(*ssa.Global)
+						if !isG || !typeIs(g.Type(), "", "Context") || !strings.Contains(g.Type().String(), "apd") {
+							continue
+						}
+						okUse := false
+						switch y := in.(type) {
+						case *ssa.UnOp:
+							okUse = y.Op == token.MUL // a copy of the context value
+						case *ssa.FieldAddr:
+							okUse = true // stores through it are reported above
+						case *ssa.MakeClosure:
+							_, _, okUse = boundCtxMethod(y)
+						case ssa.CallInstruction:
+							cc := y.Common()
+							if sc := cc.StaticCallee(); sc != nil && len(cc.Args) > 0 && cc.Args[0] == ssa.Value(g) && strings.Contains(fnPkgPath(sc), "cockroachdb/apd") {
+								okUse = true // receiver of one of the library's own methods
+								for _, a := range cc.Args[1:] {
+									if a == ssa.Value(g) {
+										okUse = false
+									}
+								}
+							}
+						case *ssa.DebugRef:
+							okUse = true
+						}
+						if !okUse {
+							n++
+							c.Violate("C19.M2", funcKey(fn)+"#ctxescape:"+g.Name(), p.Pos(in.Pos()), "the address of the shared decimal context "+g.Name()+" is handed on (argument, stored or returned pointer): code that receives it can change the rounding mode, precision or traps of every later operation in the process", nil)
+						}
+					}
+				}
+			}
+		}
+	}
 	if n == 0 {
-		c.Hold("C19.M2", "contexts#no-writes", "-", "no store into exactContext, dec128Context or apd.BaseContext outside package initialisers in any loaded repo package", nil)
+		c.Hold("C19.M2", "contexts#no-writes", "-", "no store into exactContext, dec128Context or apd.BaseContext outside package initialisers in any loaded repo package, and their addresses are used only as receivers of the library's own methods", nil)
 	}
 }
 
@@ -1204,4 +1229,175 @@ func pos0(p *Program, fn *ssa.Function) bool {
 		pos = q.Pos()
 	}
 	return !pos.IsValid() || !isGeneratedFile(p.Fset.Position(pos).Filename)
+}
+
+
+// ---- M8: no machine-integer arithmetic feeds a decimal --------------------------------------------
+
+// ruleNoMachineArith: in types/math, the result of a Go-level integer +, -, *, << on two non-constant
+// operands never reaches a decimal, big.Int or sdk Int (as a call argument or stored coefficient /
+// exponent): machine integers wrap around silently, the decimal library does not.
+func ruleNoMachineArith(c *Ctx, p *Program, fns []*ssa.Function) {
+	n := 0
+	for _, fn := range fns {
+		if len(fn.Blocks) == 0 || isCanaryFn(fn) {
+			continue
+		}
+		for _, b := range fn.Blocks {
+			for _, in := range b.Instrs {
+				bo, ok := in.(*ssa.BinOp)
+				if !ok {
+					continue
+				}
+				switch bo.Op {
+				case token.ADD, token.SUB, token.MUL, token.SHL:
+				default:
+					continue
+				}
+				bt, isBasic := bo.Type().Underlying().(*types.Basic)
+				if !isBasic || bt.Info()&types.IsInteger == 0 {
+					continue
+				}
+				if _, isC := bo.X.(*ssa.Const); isC {
+					continue
+				}
+				if _, isC := bo.Y.(*ssa.Const); isC {
+					continue
+				}
+				n++
+				key := fmt.Sprintf("%s#intarith@%d", fnKeyShort(fn), n)
+				if sink := reachesNumericSink(bo, map[ssa.Value]bool{}, 0); sink != "" {
+					c.Violate("C19.M8", key, p.Pos(bo.Pos()), "machine-integer "+bo.Op.String()+" on two variable operands flows into "+sink+": it wraps around silently where the decimal library would carry or report", nil)
+				} else {
+					c.Hold("C19.M8", key, p.Pos(bo.Pos()), "machine-integer "+bo.Op.String()+" does not reach a decimal, big.Int or sdk Int", nil)
+				}
+			}
+		}
+	}
+	if n == 0 {
+		c.Hold("C19.M8", "types/math#no-machine-arith", "-", "no Go-level integer +, -, *, << on two variable operands anywhere in types/math", nil)
+	}
+}
+
+func reachesNumericSink(v ssa.Value, seen map[ssa.Value]bool, depth int) string {
+	if seen[v] || depth > 6 || v.Referrers() == nil {
+		return ""
+	}
+	seen[v] = true
+	for _, r := range *v.Referrers() {
+		switch y := r.(type) {
+		case *ssa.Convert:
+			if s := reachesNumericSink(y, seen, depth+1); s != "" {
+				return s
+			}
+		case *ssa.Phi:
+			if s := reachesNumericSink(y, seen, depth+1); s != "" {
+				return s
+			}
+		case *ssa.BinOp:
+			if s := reachesNumericSink(y, seen, depth+1); s != "" {
+				return s
+			}
+		case *ssa.UnOp:
+			if s := reachesNumericSink(y, seen, depth+1); s != "" {
+				return s
+			}
+		case *ssa.Store:
+			if fa, isFA := y.Addr.(*ssa.FieldAddr); isFA && (typeIs(fa.X.Type(), "", "Decimal") || typeIs(fa.X.Type(), mathPkgSuffix, "Dec")) {
+				return "a stored decimal field"
+			}
+		case ssa.CallInstruction:
+			pkg, name := calleePkgName(y.Common())
+			if strings.Contains(pkg, "cockroachdb/apd") || pkg == "math/big" || strings.HasSuffix(pkg, "cosmossdk.io/math") || strings.HasSuffix(pkg, mathPkgSuffix) {
+				return pkg[strings.LastIndex(pkg, "/")+1:] + "." + name
+			}
+		}
+	}
+	return ""
+}
+
+
+// ruleM2Contexts: each arithmetic entry point of the contract table (only those named in `only`, when
+// given) performs its operation on the required context and no other context operation.
+func ruleM2Contexts(c *Ctx, p *Program, sp *ssa.Package, byName map[string]*ssa.Function, only map[string]bool) {
+	for _, name := range sortedKeys(ctxTable) {
+		if only != nil && !only[name] {
+			continue
+		}
+		fn := byName[name]
+		if fn == nil {
+			c.Undecide("C19.M2", name, "-", "arithmetic entry point "+name+" no longer exists: the rule table must be re-confirmed")
+			continue
+		}
+		got := ctxOps(fn, sp, map[*ssa.Function]bool{})
+		for op, want := range ctxTable[name] {
+			var have []string
+			for k := range got {
+				if strings.HasSuffix(k, "."+op) {
+					have = append(have, strings.TrimSuffix(k, "."+op))
+				}
+			}
+			sort.Strings(have)
+			ok := len(have) == 1 && have[0] == want
+			det := fmt.Sprintf("%s performs %s on %v (required: %s)", name, op, have, want)
+			c.Check(ok, "C19.M2", name+"#"+op, p.Pos(fn.Pos()), det)
+		}
+		// no other context op may be reachable
+		for k := range got {
+			op := k[strings.LastIndex(k, ".")+1:]
+			if _, ok := ctxTable[name][op]; !ok {
+				c.Violate("C19.M2", name+"#extra:"+op, p.Pos(fn.Pos()), name+" additionally performs "+k+" which its contract does not include", nil)
+			}
+		}
+	}
+}
+
+// ruleArith: the ledger properties (C01, C02, C04–C07) are stated over exact decimal values; the
+// identities the explorer proves treat Add/Sub/SafeAddBalance/SafeSubBalance/… as exact. This rule
+// vouches for that on the types/math functions the property's entry points actually reach: required
+// context per operation (M2), context literals (precision, traps), fresh destinations (M1) and no
+// machine-integer arithmetic feeding a decimal (M8). A defect there breaks the property for values
+// the tests never use (34+ digits, coefficients near 2^63).
+func ruleArith(c *Ctx, e *Env, rule string, keep func(ep *EntryPoint) bool) {
+	m := e.Model("x/ecocredit")
+	p := m.P
+	sp := p.SSAPkg(mathPkgSuffix)
+	if sp == nil {
+		c.Undecide(rule, "types/math", "-", "package types/v2/math not found in the loaded program")
+		return
+	}
+	g := NewGraph(p)
+	var roots []*ssa.Function
+	for _, ep := range m.Entries {
+		if ep.Fn != nil && ep.Implemented && ep.Kind != "canary" && keep(ep) {
+			roots = append(roots, ep.Fn)
+		}
+	}
+	used := map[string]bool{}
+	byName := map[string]*ssa.Function{}
+	var usedFns []*ssa.Function
+	for _, fn := range sortedFns(g.Closure(roots)) {
+		if fn.Pkg == sp && len(fn.Blocks) > 0 && fn.Parent() == nil {
+			used[mathFnName(fn)] = true
+			byName[mathFnName(fn)] = fn
+			usedFns = append(usedFns, fn)
+		}
+	}
+	tmp := NewCtx("C19", c.Tier)
+	for _, fn := range usedFns {
+		ruleM1(tmp, p, fn)
+	}
+	ruleM2Contexts(tmp, p, sp, byName, used)
+	ruleM2Literals(tmp, p)
+	ruleNoMachineArith(tmp, p, usedFns)
+	n := 0
+	for _, o := range tmp.Obligs {
+		if o.Status == Violated || o.Status == Undecided {
+			n++
+			c.Violate(rule, o.Construct, o.Pos, o.Detail+" (a types/math function these handlers rely on)", nil)
+		}
+	}
+	if n == 0 {
+		c.Check(len(usedFns) > 0 && len(roots) > 0, rule, "types/math#relied-upon", p.Pos(sp.Members["Dec"].Pos()), fmt.Sprintf("%d types/math functions reached from %d entry points: each operation on its required exact context, context literals trap inexact results, destinations fresh, no machine-integer arithmetic feeds a decimal (%d shape obligations)", len(usedFns), len(roots), len(tmp.Obligs)))
+	}
 }
